@@ -74,6 +74,19 @@ def run(prop, tier):
     for g in genstats:
         states += g["states"]
         transitions += g["transitions"]
+    # (a') the matching algorithm as implemented (Rp2Engine): model-checked; its finished runs are replayed into the real code
+    engine = None
+    if prop in ("C01", "C02", "C09"):
+        engine, eruns = gen.model_check_engine(3 if tier == "quick" else 4, "pairs")
+        states += engine["states"]
+        transitions += engine["transitions"]
+        if "violation" in engine:
+            print(f"NOTE: the implementation-shaped model Rp2Engine violates one of its invariants ({engine['violation']}); its runs are replayed into rp2 below", file=sys.stderr)
+        limit = 2500 if tier == "quick" else 40000
+        if len(eruns) > limit:
+            eruns = rnd.sample(eruns, limit)
+        jobs += [gen.engine_job(r) for r in eruns]
+        engine["runs_replayed"] = len(eruns)
 
     print(f"[{timer.s():.0f}s] model checking done", file=sys.stderr)
     # (b) spec -> code: run the real rp2 on every generated history
@@ -83,6 +96,22 @@ def run(prop, tier):
     traces = [t for t in traces if not t["meta"]["overflow"]]
 
     print(f"[{timer.s():.0f}s] {nruns} real runs done", file=sys.stderr)
+    # model drift (P2): the deterministic output of Rp2Engine must be what the real compute_tax returned on the same history
+    if engine is not None:
+        drift = []
+        for t in traces:
+            exp = t["meta"].get("engine_expected")
+            if not exp:
+                continue
+            got = [[ln["ev"], ln["lot"], ln["amt"]] for ln in t["lines"] if ln["a"] == "Take"]
+            status = next((ln["status"] for ln in t["lines"] if ln["a"] == "Obs"), "none")
+            if (exp["pc"] == "done") != (status == "ok") or (exp["pc"] == "done" and got != exp["out"]):
+                drift.append({"history": t["h"], "sched": t["c"]["sched"], "model": exp, "rp2": got, "rp2_status": status})
+        engine["model_drift"] = len(drift)
+        engine["model_drift_samples"] = drift[:3]
+        if drift:
+            print(f"NOTE: model drift: Rp2Engine and rp2 disagree on {len(drift)} of {engine['runs_replayed']} replayed runs (the model describes the code; see evidence)", file=sys.stderr)
+
     # negative controls
     controls = []
     order = list(range(len(traces)))
@@ -160,7 +189,7 @@ def run(prop, tier):
         "rule": f"one evaluation = one real run of rp2 (compute_tax) on a TLC-generated history under one configuration/view; a trace is non-trivial for {prop} "
                 f"when TLC recorded a witness clause W.{prop}.* for it (the antecedent of the property occurred); traces are distinct (history, configuration) pairs",
         "exhaustive": all(g["exhaustive"] for g in genstats if not g["simulated_behaviours"]),
-        "model_checking": mc_results, "generation": genstats,
+        "model_checking": mc_results + ([engine] if engine else []), "generation": genstats,
         "negative_controls": {"generated": ctl_total, "rejected_by_property_clause": ctl_rejected},
         "histories_skipped_for_lattice_overflow": len(overflow),
         "traces_not_judged": len(unjudged),
